@@ -11,9 +11,10 @@ from __future__ import annotations
 import contextlib
 import inspect
 import logging
+import sys
 import threading
 from abc import ABC, abstractmethod
-from collections.abc import Callable, Iterable, Sized
+from collections.abc import Callable, Iterable, Iterator, Sized
 from dataclasses import dataclass, field
 from functools import wraps
 from itertools import count
@@ -1033,6 +1034,21 @@ def _eq(val1, val2) -> float:
             return 0.0
     except TypeError:
         pass
+    return _eq_distance(val1, val2)
+
+
+def _eq_distance(val1, val2) -> float:
+    """How far two unequal values are from being equal.
+
+    Does not invoke the comparison operators of the given values.
+
+    Args:
+        val1: the first value
+        val2: the second value
+
+    Returns:
+        the distance
+    """
     if is_numeric(val1) and is_numeric(val2):
         return float(abs(val1 - val2))
     if is_string(val1) and is_string(val2):
@@ -1069,6 +1085,21 @@ def _lt(val1, val2) -> float:
     """
     if val1 < val2:
         return 0.0
+    return _lt_distance(val1, val2)
+
+
+def _lt_distance(val1, val2) -> float:
+    """How far ``val1`` is from being less than ``val2``, given that it is not.
+
+    Does not invoke the comparison operators of the given values.
+
+    Args:
+        val1: the first value
+        val2: the second value
+
+    Returns:
+        the distance
+    """
     if is_numeric(val1) and is_numeric(val2):
         return (float(val1) - float(val2)) + 1.0
     if is_string(val1) and is_string(val2):
@@ -1090,6 +1121,21 @@ def _le(val1, val2) -> float:
     """
     if val1 <= val2:
         return 0.0
+    return _le_distance(val1, val2)
+
+
+def _le_distance(val1, val2) -> float:
+    """How far ``val1`` is from being less than or equal to ``val2``, given that it is not.
+
+    Does not invoke the comparison operators of the given values.
+
+    Args:
+        val1: the first value
+        val2: the second value
+
+    Returns:
+        the distance
+    """
     if is_numeric(val1) and is_numeric(val2):
         return float(val1) - float(val2)
     if is_string(val1) and is_string(val2):
@@ -1120,12 +1166,29 @@ def _in(val1, val2) -> float:
     #  Check only if collection size is within some range,
     #  otherwise the check might take very long.
 
-    # If `val2` is not iterable, there is no element to compare against.
-    if not isinstance(val2, Iterable):
+    return _in_distance(val1, val2)
+
+
+def _in_distance(val1, val2) -> float:
+    """How far ``val1`` is from being contained in ``val2``, given that it is not.
+
+    Does not invoke the comparison operators of the given values and does not
+    consume one-shot iterators.
+
+    Args:
+        val1: the first value
+        val2: the second value
+
+    Returns:
+        the distance
+    """
+    # If `val2` is not iterable, there is no element to compare against; iterating
+    # an iterator would consume it.
+    if not isinstance(val2, Iterable) or isinstance(val2, Iterator):
         return inf
 
     # Use the shortest distance to any element of the iterable.
-    return min([_eq(val1, v) for v in val2] + [inf])
+    return min([_eq_distance(val1, v) for v in val2] + [inf])
 
 
 def _nin(val1, val2) -> float:
@@ -1175,6 +1238,52 @@ def _isn(val1, val2) -> float:
     if val1 is not val2:
         return 0.0
     return 1.0
+
+
+def _positive_distance(func, *args) -> float:
+    """Compute the distance of a branch that was not taken.
+
+    Such a distance must be a positive number.  Computing it must never fail, because
+    the subject under test does not perform this computation.
+
+    Args:
+        func: the function computing the raw distance
+        args: the arguments of the function
+
+    Returns:
+        a positive distance that is not NaN
+    """
+    try:
+        distance = float(func(*args))
+    except Exception:  # noqa: BLE001
+        # For example OverflowError for huge integers, TypeError for Decimal - float.
+        return inf
+    if distance != distance:  # NaN  # noqa: PLR0124
+        return inf
+    if distance <= 0.0:
+        # The values differ, but the difference is not representable.
+        return sys.float_info.min
+    return distance
+
+
+def _branch_distances(
+    outcome: bool,  # noqa: FBT001
+    to_true: tuple | None,
+    to_false: tuple | None,
+) -> tuple[float, float]:
+    """Compute the true and false distances of an evaluated comparison.
+
+    Args:
+        outcome: The outcome of the comparison as evaluated by Python
+        to_true: Function and arguments for the distance to the true branch, 1.0 if None
+        to_false: Function and arguments for the distance to the false branch, 1.0 if None
+
+    Returns:
+        The true and the false distance; exactly the one of the taken branch is 0.0
+    """
+    if outcome:
+        return 0.0, 1.0 if to_false is None else _positive_distance(*to_false)
+    return 1.0 if to_true is None else _positive_distance(*to_true), 0.0
 
 
 _P = ParamSpec("_P")
@@ -1315,53 +1424,43 @@ class ExecutionTracer(AbstractExecutionTracer):  # noqa: PLR0904
             value1 = tt.unwrap(value1)
             value2 = tt.unwrap(value2)
 
+            # Evaluate the comparison exactly once, like the subject under test does;
+            # the branch that is taken has distance 0, the distance of the other
+            # branch is computed without invoking operators of the values again.
             match cmp_op:
                 case PynguinCompare.EQ:
-                    distance_true, distance_false = _eq(value1, value2), _neq(value1, value2)
+                    outcome = bool(value1 == value2)
+                    to_true, to_false = (_eq_distance, value1, value2), None
                 case PynguinCompare.NE:
-                    distance_true, distance_false = _neq(value1, value2), _eq(value1, value2)
+                    outcome = bool(value1 != value2)
+                    to_true, to_false = None, (_eq_distance, value1, value2)
                 case PynguinCompare.LT:
-                    distance_true, distance_false = (
-                        _lt(value1, value2),
-                        _le(value2, value1),
-                    )
+                    outcome = bool(value1 < value2)
+                    to_true, to_false = (_lt_distance, value1, value2), (_le_distance, value2, value1)
                 case PynguinCompare.LE:
-                    distance_true, distance_false = (
-                        _le(value1, value2),
-                        _lt(value2, value1),
-                    )
+                    outcome = bool(value1 <= value2)
+                    to_true, to_false = (_le_distance, value1, value2), (_lt_distance, value2, value1)
                 case PynguinCompare.GT:
-                    distance_true, distance_false = (
-                        _lt(value2, value1),
-                        _le(value1, value2),
-                    )
+                    outcome = bool(value1 > value2)
+                    to_true, to_false = (_lt_distance, value2, value1), (_le_distance, value1, value2)
                 case PynguinCompare.GE:
-                    distance_true, distance_false = (
-                        _le(value2, value1),
-                        _lt(value1, value2),
-                    )
+                    outcome = bool(value1 >= value2)
+                    to_true, to_false = (_le_distance, value2, value1), (_lt_distance, value1, value2)
                 case PynguinCompare.IN:
-                    distance_true, distance_false = (
-                        _in(value1, value2),
-                        _nin(value1, value2),
-                    )
+                    outcome = bool(value1 in value2)
+                    to_true, to_false = (_in_distance, value1, value2), None
                 case PynguinCompare.NOT_IN:
-                    distance_true, distance_false = (
-                        _nin(value1, value2),
-                        _in(value1, value2),
-                    )
+                    outcome = bool(value1 not in value2)
+                    to_true, to_false = None, (_in_distance, value1, value2)
                 case PynguinCompare.IS:
-                    distance_true, distance_false = (
-                        _is(value1, value2),
-                        _isn(value1, value2),
-                    )
+                    outcome = value1 is value2
+                    to_true, to_false = None, None
                 case PynguinCompare.IS_NOT:
-                    distance_true, distance_false = (
-                        _isn(value1, value2),
-                        _is(value1, value2),
-                    )
+                    outcome = value1 is not value2
+                    to_true, to_false = None, None
                 case _:
                     raise AssertionError("Unknown compare op")
+            distance_true, distance_false = _branch_distances(outcome, to_true, to_false)
             self._update_metrics(distance_false, distance_true, predicate)
 
     @_early_return
@@ -1376,10 +1475,10 @@ class ExecutionTracer(AbstractExecutionTracer):  # noqa: PLR0904
                     # Sized instances evaluate to False if they are empty,
                     # and to True otherwise, thus we can use their size as a distance
                     # measurement.
-                    distance_false = len(value)
+                    distance_false = _positive_distance(len, value)
                 elif is_numeric(value):
                     # For numeric value, we can use their absolute value
-                    distance_false = float(abs(value))
+                    distance_false = _positive_distance(abs, value)
                 else:
                     # Necessary to use inf instead of 1.0 here,
                     # so that a value for which we can't compute a false distance
@@ -1408,7 +1507,16 @@ class ExecutionTracer(AbstractExecutionTracer):  # noqa: PLR0904
         with self.temporarily_disable():
             value1 = tt.unwrap(value1)
             value2 = tt.unwrap(value2)
-            distance_true, distance_false = _in(value1, value2), _nin(value1, value2)
+            try:
+                # An iterator would be consumed by a membership test.
+                outcome = not isinstance(value2, Iterator) and bool(value1 in value2)
+            except Exception:  # noqa: BLE001
+                # The subject under test does not perform this membership test,
+                # thus it must not fail; treat undefined membership as "not in".
+                outcome = False
+            distance_true, distance_false = _branch_distances(
+                outcome, (_in_distance, value1, value2), None
+            )
             self._update_metrics(distance_false, distance_true, predicate)
 
     @_early_return
